@@ -3,6 +3,7 @@
 -/
 import BB.Model
 import Driver.ExecProto
+import Driver.FrontProto
 import Driver.DfuProto
 open BB BB.Spec
 
@@ -154,7 +155,10 @@ def handle (line : String) : String :=
   | _ =>
     match handleExec toks with
     | some r => r
-    | none => "bad-request"
+    | none =>
+      match handleFront toks with
+      | some r => r
+      | none => "bad-request"
 
 partial def loop (i o : IO.FS.Stream) (st : DfuState := DfuState.init) : IO Unit := do
   let line ← i.getLine
